@@ -116,15 +116,15 @@ impl Target {
     }
 //@fn src/domain.rs Target::metadata ret=r
 //@contract
-    ensures *r == self.meta(),
+    ensures /*[C09.keyed]*/ *r == self.meta(),
 //@end
 //@fn src/domain.rs Target::id ret=r
 //@contract
-    ensures *r == self.meta().id,
+    ensures /*[C09.keyed]*/ *r == self.meta().id,
 //@end
 //@fn src/domain.rs Target::dependencies ret=r
 //@contract
-    ensures *r == self.meta().dependencies,
+    ensures /*[C09.closed]*/ *r == self.meta().dependencies,
 //@end
 //@fn src/domain.rs Target::extend_dependencies
 //@contract
